@@ -84,6 +84,12 @@ ViewEvent ==
 \* ---- many `&mut` alive at once
 FullCover(op) == op \in {"iter_mut", "iter_mut_both_ends", "lanes_mut", "inner_iter_mut", "axis_iter_mut",
                          "axis_chunks_mut", "split_tree"}
+\* the leaf was planned on a scratch tensor; when an earlier operation was rejected its
+\* arguments may not fit the real view: a dimension argument >= rank is a documented panic
+LeafArgsOk(ev) ==
+  CASE ev.op.op \in {"lanes_mut", "axis_iter_mut", "axis_chunks_mut"} -> ev.op.args[1] < Len(ev.shape)
+    [] ev.op.op = "inner_iter_mut" -> ev.op.args[1] <= Len(ev.shape)
+    [] OTHER -> TRUE
 Leaf ==
   /\ e.ev = "leaf"
   /\ \E ev \in {e} :
@@ -95,7 +101,8 @@ Leaf ==
          b1 == IF distinct THEN nbad ELSE Flag(nbad, FALSE, sigl("mut_alias"), rec)
          b2 == IF inside THEN b1 ELSE Flag(b1, FALSE, sigl("mut_outside_storage"), rec)
          lg == Logged(ev)
-         cover == IF ev.outcome # "ok" THEN FALSE
+         cover == IF ev.outcome # "ok" THEN ~LeafArgsOk(ev)
+                  ELSE IF ~LeafArgsOk(ev) THEN FALSE
                   ELSE IF FullCover(ev.op.op) THEN Range(offs) = LOffsetSet(lg) /\ Len(offs) = Prod(ev.shape)
                   ELSE IF ev.op.op = "get_mut"
                        THEN (IF ValidIndex(ev.shape, ev.op.args) THEN offs = <<LOffset(lg, ev.op.args)>> ELSE offs = <<>>)
